@@ -45,6 +45,13 @@ func GetCacheBackend(
 		}
 		return NewRemoteWrapper(fs, gcsCache), nil
 	case config.S3CacheBackend:
+		if client := verifS3Client(); client != nil {
+			s3Cache, err := NewS3CacheWithClient(ctx, cacheConfig.S3, client)
+			if err != nil {
+				return nil, err
+			}
+			return NewRemoteWrapper(fs, s3Cache), nil
+		}
 		s3Cache, err := NewS3Cache(ctx, cacheConfig.S3)
 		if err != nil {
 			return nil, err
